@@ -72,18 +72,18 @@ func (fc *FnCtx) mapRegionNames(T types.Type) []string {
 	mt := T.Underlying().(*types.Map)
 	n := mapName(mt)
 	out := []string{n + ".dom", n + ".size"}
-	if isObjectType(mt.Elem()) && !isEmptyStruct(mt.Elem()) {
-		panic(unsupported("map with by-value struct elements"))
-	}
-	for _, lf := range cellLeaves(mt.Elem()) {
+	leaves := mapElemLeaves(mt.Elem())
+	for _, lf := range leaves {
 		out = append(out, n+".val"+lf.suffix)
 	}
 	// register sorts
 	ks := fc.keySort(mt)
 	fc.regDecl(n+".dom", 1, "(Array "+ks+" Bool)")
 	fc.regDecl(n+".size", 1, "Int")
-	fc.eng.noteRegionType(n+".val", mt.Elem(), ks)
-	for _, lf := range cellLeaves(mt.Elem()) {
+	if structOf(mt.Elem()) == nil {
+		fc.eng.noteRegionType(n+".val", mt.Elem(), ks)
+	}
+	for _, lf := range leaves {
 		fc.regDecl(n+".val"+lf.suffix, 1, "(Array "+ks+" "+leafSort(lf.kind)+")")
 	}
 	return out
@@ -127,22 +127,7 @@ func (fc *FnCtx) mapVal(st *State, m Val, mt *types.Map, key Term) Val {
 		r := fc.vc.region(st, n+".val"+suffix, 1, "(Array "+ks+" "+leafSort(k)+")")
 		return sel(r, m.S, key)
 	}
-	T := mt.Elem()
-	switch k := kindOfType(T); k {
-	case KSlice:
-		return Val{K: KSlice, T: T, Sl: &SliceV{get(".base", KInt), get(".off", KInt), get(".len", KInt), get(".cap", KInt)}}
-	case KIface:
-		return Val{K: KIface, T: T, S: get(".pl", KInt), Tag: get(".tag", KInt)}
-	case KPtr:
-		return fc.vc.ptrFromRef(get("", KInt), T)
-	case KFunc:
-		return Val{K: KFunc, T: T, S: get("", KInt)}
-	default:
-		if isEmptyStruct(T) {
-			return Val{K: KStruct, T: T}
-		}
-		return Val{K: k, T: T, S: get("", k)}
-	}
+	return fc.getLeaves(get, mt.Elem(), "")
 }
 
 // mapGet: spec-level m[k] (zero value when absent).
@@ -217,26 +202,93 @@ func (fc *FnCtx) mapStore(st *State, m Val, mt *types.Map, key Term, v Val) {
 		r := vc.region(st, n+".val"+suffix, 1, s)
 		vc.setRegion(st, n+".val"+suffix, 1, s, stor(r, []Term{m.S, key}, t))
 	}
-	switch k := kindOfType(mt.Elem()); k {
+	fc.putLeaves(put, mt.Elem(), "", v)
+}
+
+// putLeaves stores value v of type T leaf by leaf (suffix names as in mapElemLeaves).
+func (fc *FnCtx) putLeaves(put func(suffix string, k Kind, t Term), T types.Type, prefix string, v Val) {
+	vc := fc.vc
+	switch k := kindOfType(T); k {
 	case KSlice:
-		put(".base", KInt, v.Sl.Base)
-		put(".off", KInt, v.Sl.Off)
-		put(".len", KInt, v.Sl.Len)
-		put(".cap", KInt, v.Sl.Cap)
+		sl := v.Sl
+		if sl == nil {
+			sl = &SliceV{"0", "0", "0", "0"}
+		}
+		put(prefix+".base", KInt, sl.Base)
+		put(prefix+".off", KInt, sl.Off)
+		put(prefix+".len", KInt, sl.Len)
+		put(prefix+".cap", KInt, sl.Cap)
 	case KIface:
-		put(".pl", KInt, v.S)
-		put(".tag", KInt, v.Tag)
+		put(prefix+".pl", KInt, v.S)
+		put(prefix+".tag", KInt, v.Tag)
 	case KFunc:
-		put("", KInt, vc.funcID(v))
+		put(prefix, KInt, vc.funcID(v))
 	case KPtr:
-		put("", KInt, v.S)
-	default:
-		if isEmptyStruct(mt.Elem()) {
-			put("", KInt, "0") // struct{}: set-like map, the value carries no information
+		put(prefix, KInt, v.S)
+	case KStruct:
+		if isEmptyStruct(T) {
+			put(prefix, KInt, "0") // struct{}: set-like map, the value carries no information
 			return
 		}
-		put("", k, vc.coerce(v, k))
+		su := structOf(T)
+		for i := 0; i < su.NumFields(); i++ {
+			fv := vc.zero(su.Field(i).Type())
+			if v.K == KStruct && i < len(v.Fs) {
+				fv = v.Fs[i]
+			}
+			fc.putLeaves(put, su.Field(i).Type(), prefix+"."+su.Field(i).Name(), fv)
+		}
+	default:
+		put(prefix, k, vc.coerce(v, k))
 	}
+}
+
+// getLeaves assembles a value of type T from its leaves.
+func (fc *FnCtx) getLeaves(get func(suffix string, k Kind) Term, T types.Type, prefix string) Val {
+	switch k := kindOfType(T); k {
+	case KSlice:
+		return Val{K: KSlice, T: T, Sl: &SliceV{get(prefix+".base", KInt), get(prefix+".off", KInt), get(prefix+".len", KInt), get(prefix+".cap", KInt)}}
+	case KIface:
+		return Val{K: KIface, T: T, S: get(prefix+".pl", KInt), Tag: get(prefix+".tag", KInt)}
+	case KPtr:
+		return fc.vc.ptrFromRef(get(prefix, KInt), T)
+	case KFunc:
+		return Val{K: KFunc, T: T, S: get(prefix, KInt)}
+	case KStruct:
+		v := Val{K: KStruct, T: T}
+		if isEmptyStruct(T) {
+			return v
+		}
+		su := structOf(T)
+		for i := 0; i < su.NumFields(); i++ {
+			v.Fs = append(v.Fs, fc.getLeaves(get, su.Field(i).Type(), prefix+"."+su.Field(i).Name()))
+		}
+		return v
+	default:
+		return Val{K: k, T: T, S: get(prefix, k)}
+	}
+}
+
+// mapElemLeaves: the leaf regions (suffix after ".val", kind) a map's element type occupies;
+// a struct value with flat fields is stored field by field.
+func mapElemLeaves(T types.Type) []leafSpec {
+	if su := structOf(T); su != nil && !isEmptyStruct(T) {
+		var out []leafSpec
+		for i := 0; i < su.NumFields(); i++ {
+			ft := su.Field(i).Type()
+			if _, isArr := ft.Underlying().(*types.Array); isArr {
+				panic(unsupported("map with struct elements that contain arrays"))
+			}
+			for _, lf := range mapElemLeaves(ft) {
+				out = append(out, leafSpec{"." + su.Field(i).Name() + lf.suffix, lf.kind})
+			}
+		}
+		return out
+	}
+	if _, isArr := T.Underlying().(*types.Array); isArr {
+		panic(unsupported("map with array elements"))
+	}
+	return cellLeaves(T)
 }
 
 func isEmptyStruct(T types.Type) bool {
